@@ -78,7 +78,7 @@ def build(repo):
                requires=['the pure-Python path (the Fortran extension is not built here):: not use_fortran'], modifies=[], result='rvec',
                loops={'for:i#0': [], 'for:j#0': [('scan invariant: no side flagged so far, and every free coordinate below the scan index is strictly inside its bounds:: '
                                                   'not on_box_bdry and forall(q, 0, i_, member(cons_dirns, q) or (a[q] < xnew[q] and xnew[q] < b[q]))', 'C13')]},
-               asserts={'return#3': [('(C13) the full step is returned only when it is strictly inside the box in EVERY coordinate that is still free (the scan covers all of them):: '
+               asserts={'return@text:return xnew': [('(C13) the full step is returned only when it is strictly inside the box in EVERY coordinate that is still free (the scan covers all of them):: '
                                       'forall(q, 0, ndim(), member(cons_dirns, q) or (a[q] < result[q] and result[q] < b[q]))', 'C13')]},
                dead_under=['use_fortran'], ensures=[])
     D.verify_list = ['trsbox_linear']
